@@ -306,10 +306,19 @@ AX_AEON = [
 ]
 
 
+class _BnVars(Val):
+    def __init__(self, bn):
+        self.bn = bn
+        self.ty = THelper("bn-variables")
+        self.t = None
+
+
 class NetObjModel3(NetObjModel2):
     def method(self, eng, st, v, meth, args, kw, node, recv_expr=None):
         if meth == "to_aeon":
             return Val(TAeonText, to_aeon_fn(v.t))
+        if meth == "variables" and not args:
+            return _BnVars(v)      # only meaningful inside `[bn.get_variable_name(v) for v in bn.variables()]`
         return super().method(eng, st, v, meth, args, kw, node, recv_expr)
 
 
